@@ -71,7 +71,8 @@ Record inv (s : gst) : Prop := {
   i_chain : chain 0 (rev (g_out s));
   i_last : g_lastMax s = lastmax 0 (rev (g_out s));
   i_len : g_len s = length (concat (g_cur s));
-  i_ne : Forall (fun p => p <> []) (g_cur s)
+  i_ne : Forall (fun p => p <> []) (g_cur s);
+  i_lm : (g_lastMax s <= g_maxTID s)%N
 }.
 
 Lemma lastmax_snoc m bs b : lastmax m (bs ++ [b]) = b_max b.
@@ -88,7 +89,7 @@ Lemma close_ok s isLast :
   inv s' /\ entries s' = entries s /\ g_len s' = 0 /\ g_maxTID s' = g_maxTID s
   /\ nt s' = (if isLast then g_maxTID s + 1 else g_maxTID s)%N.
 Proof.
-  intros [Hc Hl Hn Hne] Hcur Hnt. cbv zeta.
+  intros [Hc Hl Hn Hne Hlm] Hcur Hnt. cbv zeta.
   set (b := mkBlock (g_lastMax s + 1) (g_maxTID s) (g_cont s) (mkChunks (rev (g_cur s)) isLast)).
   assert (Hb : badj b = adj_cur s) by apply badj_new.
   unfold new_block. fold b. split; [constructor|]; cbn [g_out g_lastMax g_len g_cur g_maxTID g_cont].
@@ -99,6 +100,7 @@ Proof.
   - cbn [rev]. rewrite lastmax_snoc. reflexivity.
   - reflexivity.
   - constructor.
+  - lia.
   - split; [|split; [reflexivity|split; [reflexivity|]]].
     + unfold entries. cbn [g_out g_cur rev tag]. rewrite app_nil_r.
       unfold entries_of. rewrite flat_map_app. cbn [flat_map]. rewrite app_nil_r.
@@ -137,7 +139,7 @@ Proof.
       unfold p, lids. destruct right; [lia|]. simpl. congruence. }
     assert (Hplen : length p = right) by (unfold p; rewrite firstn_length; lia).
     set (s1 := mkG (g_maxTID s) (g_lastMax s) (g_cont s) (p :: g_cur s) (g_len s + right) (g_out s)).
-    destruct Hinv as [Hc Hl Hn Hnn].
+    destruct Hinv as [Hc Hl Hn Hnn Hlm].
     assert (Hinv1 : inv s1).
     { constructor; cbn [g_out g_lastMax g_len g_cur s1]; auto.
       - cbn [concat]. rewrite app_length. lia.
@@ -202,7 +204,7 @@ Proof.
     rewrite nth_middle. rewrite nth_overflow by lia. reflexivity.
   - rewrite app_nil_r. destruct (Nat.lt_ge_cases (N.to_nat (t - 1)) (length done)).
     + apply app_nth1; auto.
-    + rewrite !nth_overflow; auto; try lia. rewrite app_length. simpl. lia.
+    + rewrite !nth_overflow; auto; try lia. rewrite app_length. cbn [length]. lia.
 Qed.
 
 Lemma sel_pairs tid t ps :
@@ -221,8 +223,7 @@ Proof.
   unfold gen_tid.
   destruct (gen_token_ok cap Hcap (S (length lids)) lids (bump s)) as
       (s' & ps & Eg & Hi' & Hl' & Hn' & Hm' & He' & Hc' & Hp'); auto.
-  - destruct Hi. constructor; auto.
-  - intros _. unfold nt, adj_cur, bump in *. cbn [g_cont g_lastMax g_cur g_maxTID] in *. lia.
+  - destruct Hi. constructor; auto. cbn. lia.
   - intros; congruence.
   - exists s'. split; auto.
     assert (Ee : entries (bump s) = entries s) by reflexivity.
@@ -250,7 +251,7 @@ Qed.
 
 Lemma cur_empty s : inv s -> g_len s = 0 -> g_cur s = [].
 Proof.
-  intros [_ _ Hn Hne] H0. rewrite Hn in H0. destruct (g_cur s) as [|p r]; auto.
+  intros [_ _ Hn Hne _] H0. rewrite Hn in H0. destruct (g_cur s) as [|p r]; auto.
   inversion Hne as [|? ? Hp _]; subst. destruct p; [congruence|simpl in H0; lia].
 Qed.
 
@@ -263,13 +264,15 @@ Proof.
   destruct (gen_toks_ok cap Hcap toks s done Hi Hok) as (s1 & E1 & [Hi1 Hlt1 Hnt1 Htid1 Hsel1 Hpp1]).
   rewrite E1. destruct (Nat.ltb_spec 0 (g_len s1)) as [Hpos|Hz].
   - destruct (close_ok s1 true Hi1) as (Hi2 & He2 & Hl2 & Hm2 & Hn2); auto.
-    { intros E. destruct Hi1 as [_ _ Hn _]. rewrite E in Hn. simpl in Hn. lia. }
+    { intros E. destruct Hi1 as [_ _ Hn _ _]. rewrite E in Hn. simpl in Hn. lia. }
     eexists. split; [reflexivity|]. split; [|reflexivity].
-    constructor; auto; try lia.
+    constructor.
+    + exact Hi2.
+    + rewrite Hl2. lia.
     + rewrite Hn2, Hm2. reflexivity.
-    + rewrite Hm2. auto.
-    + intros t. rewrite He2. auto.
-    + rewrite He2. auto.
+    + rewrite Hm2. exact Htid1.
+    + intros t. rewrite He2. apply Hsel1.
+    + rewrite He2. exact Hpp1.
   - exists s1. split; auto. split; [constructor; auto|]. apply cur_empty; auto. lia.
 Qed.
 
@@ -289,8 +292,8 @@ Qed.
 Lemma inv2_init cap : 0 < cap -> inv2 cap g_init [].
 Proof.
   intros. constructor; cbn; auto.
-  - constructor; cbn; auto. constructor.
-  - intros t. destruct t; reflexivity.
+  - constructor; cbn; auto. lia.
+  - intros t. destruct t; [reflexivity|]. unfold get. destruct (N.to_nat (N.pos p - 1)); reflexivity.
 Qed.
 
 Definition input_ok (fields : list (list (list N))) : Prop := Forall (Forall post_ok) fields.
